@@ -113,6 +113,7 @@ def declare(rep):
     rep.rule("C14.axis-moments", "every term accumulated into the second moments that give the division axis (cell::get_cell_longest_axis) has weight 0, and the mean subtracted is the mean of the same points", floor=6)
     rep.rule("C14.displacements", "integrator displacements have weight 0; points written by pos_.reset have weight 1", floor=1)
     rep.rule("C14.new-nodes", "the node added by split_edge / merge_edge has weight 1", floor=2)
+    rep.rule("C14.mean-position", "contact model 2: the common position given to a node and its coupled partners is the mean of their positions - the sum of 1 + (number of partners) positions divided by exactly that number - so that it has translation weight 1 for any number of partners", floor=0)
     rep.rule("C14.difference-form", "in the contact routines every norm, dot and cross product is taken of translation-invariant vectors (differences of positions, normals): a distance written as |a|^2 - 2a.b + |b|^2 is invariant only through cancellation of terms that grow with the distance to the origin, so its rounding error - and with it the coupling decisions - depends on where the tissue lies", floor=3)
     rep.rule("C14.decisions", "both operands of every position-dependent comparison in the refiner, contact phases, box test and divider have equal weights", floor=10)
     rep.rule("C14.extrema-sentinels", "running minima start from a value no coordinate exceeds (+infinity / max()), running maxima from one no coordinate is below (-infinity / lowest()): numeric_limits::min() is the smallest POSITIVE double, a tissue with negative coordinates would never lower it", floor=6)
@@ -191,6 +192,8 @@ def run(rep, prog, tier):
     from . import c12
     c12.orientation_order(rep, prog, rule="C14.decisions")
     displacements(rep, prog, cm)
+    if cm == 2:
+        mean_position(rep, prog)
     new_nodes(rep, prog)
     decisions(rep, prog, cm)
     difference_form(rep, prog, cm)
@@ -255,6 +258,43 @@ def callees(rep, prog):
                                   % (i + 1, qn, bad[0] + 1, bad[1]))
             except S.Decline as e:
                 raise AnalysisBroken("%s: %s" % (prog.loc(fn, r), e))
+
+
+def mean_position(rep, prog):
+    from ..model import expand_text
+    fn = prog.fn("contact_face_face_via_coupling::resolve_all_contacts")
+    fi = prog.index(fn)
+    n = 0
+    for v in walk(fn["body"]):
+        if v.get("k") != "Var" or (v.get("t") or "").replace("const ", "").strip() != "vec3" or not isinstance(v.get("init"), dict) or "pos_" not in render(v["init"]):
+            continue
+        did = v["did"]
+        # accumulation inside a loop over the coupling map, then one scaling
+        accs, scal = [], []
+        for a in walk(fn["body"]):
+            if a.get("k") in ("CXXOperatorCallExpr",) and a.get("op") == "=" and len(a.get("c", [])) == 3 and strip(a["c"][1]).get("k") == "DeclRefExpr" and strip(a["c"][1])["ref"].get("did") == did:
+                rhs = strip(a["c"][2])
+                while rhs.get("k") in ("MaterializeTemporaryExpr", "CXXBindTemporaryExpr", "ImplicitCastExpr", "CXXConstructExpr", "ExprWithCleanups") and len([c_ for c_ in rhs.get("c", []) if isinstance(c_, dict)]) == 1:
+                    rhs = strip([c_ for c_ in rhs["c"] if isinstance(c_, dict)][0])
+                if rhs.get("k") == "CXXOperatorCallExpr" and rhs.get("op") in ("+",) and any(x.get("k") == "DeclRefExpr" and (x.get("ref") or {}).get("did") == did for x in walk(rhs)):
+                    accs.append((a, rhs))
+                elif rhs.get("k") == "CXXOperatorCallExpr" and rhs.get("op") in ("/", "*") and any(x.get("k") == "DeclRefExpr" and (x.get("ref") or {}).get("did") == did for x in walk(rhs["c"][1])):
+                    scal.append((a, rhs))
+        if not accs or not scal:
+            continue
+        loop = fi.enclosing(accs[0][0], ("CXXForRangeStmt", "ForStmt", "WhileStmt"))
+        if loop is None or "coupled_nodes_map_" not in render(loop.get("range") or loop.get("cond") or {}):
+            continue
+        n += 1
+        a, rhs = scal[0]
+        factor = expand_text(fn, rhs["c"][2]).replace("this->", "")
+        if rhs.get("op") == "/" and ("get_nb_coupled_nodes()" in factor or "coupled_nodes_map_.size()" in factor) and re.search(r"\+\(?1(\.0*)?\)?", factor):
+            rep.ok("C14.mean-position", prog, fn, a, "%s: sum of the node's and its partners' positions divided by (number of partners + 1)" % short(a, 60))
+        else:
+            rep.violation("C14.mean-position", prog, fn, a, "common position is not the mean of the coupled positions",
+                          "%s: '%s' holds the node's position plus one position per coupled partner; it is then %s %s. Only a division by (number of partners + 1) gives a point that moves with the tissue: with two partners (a junction between three cells) the weights add up to %s, the junction nodes are displaced by a multiple of their absolute position and the result depends on where the tissue lies" % (short(a, 60), v.get("name"), "multiplied by" if rhs.get("op") == "*" else "divided by", factor[:40], "1.5" if "0.5" in factor else "something else than 1"))
+    if n == 0:
+        raise AnalysisBroken("contact_face_face_via_coupling::resolve_all_contacts: the averaging of the coupled positions was not found")
 
 
 def displacements(rep, prog, cm):
